@@ -304,6 +304,24 @@ func c07ServiceGrid(run *ev.Run) (cells int, carried int, classes map[string]int
 									}
 									return false, resLetter(res)
 								}},
+								// The same account listed in one request after each other wallet: whatever was decided
+								// for the other wallet's accounts must not be applied to this one.
+								opRun{"Access account", func() (bool, string) {
+									last := ""
+									for _, w2 := range wallets {
+										if w2 == w {
+											continue
+										}
+										res, list := r.Lister.ListAccounts(r.Ctx, creds, []string{w2, w + "/" + an})
+										last = resLetter(res)
+										for _, l := range list {
+											if string(l.PublicKey().Marshal()) == string(a.PubBytes()) {
+												return true, last
+											}
+										}
+									}
+									return false, last
+								}},
 								opRun{"Lock account", func() (bool, string) {
 									_ = a.Unlock(r.Ctx, []byte("pass"))
 									res, _ := r.AcctMgr.Lock(r.Ctx, creds, full)
